@@ -118,6 +118,8 @@ func TestVerif_C20(t *testing.T) {
 		"FastForward / Delete with a working-set path on a branch that has no commit while its working set exists is only required to fail without effect (error class not compared)",
 		"interleavings are injected only at ChunkStore.Commit (between database.update's root read and its swap); goroutine interleavings elsewhere are the thorough-tier porcupine run's business",
 		"doltdb-level wrappers (NewBranchAtCommit, DeleteBranch, reset) and multi-process clients are not driven; the NBS-handles mode uses the same flock-based manifest protocol from one process",
+		"a shared NomsBlockStore acknowledges a no-op edit (new root == old root) with nothing to persist without comparing roots; such a call is predicted to succeed without effect (it is linearized where it read the root)",
+		"per-handle NBS mode: every client writes one fresh value before each store-root swap; a handle with no novel chunks whose intended manifest equals the manifest another handle just wrote (whole map went A->B->A) reports success without swapping, which ends in the same state but is not predictable from the dataset map alone",
 	}
 	recMem := vh.NewRecorder("C20", "schedules_mem", "exploration", c20Rule, assume...)
 	defer recMem.Write(t)
